@@ -45,7 +45,8 @@ fn exec_line(line: &str) -> String {
     let focus = if spec.focus.is_empty() || r.dumps[2].is_none() { "FNone".to_string() } else { focus_term(&spec.focus) };
     let tag = if !base_ok { format!("trivial-baseline-{}", match r.outcomes[0] { Outcome::LoadErr(_) => "loaderr", Outcome::RunErr(_) => "runerr", _ => "panic" }) }
               else { format!("{}{}", spec.tag, if spec.exact { "" } else { "~" }) };
-    format!("{}\t{}\t{{| c_exact := {}; c_focus := {}; c_fired := {}; c_runs := {} |}}", tag, line, b(spec.exact), focus, b(fired_), coq_list(&runs))
+    let rand: Vec<&str> = r.varies.iter().map(|v| b(*v)).collect();
+    format!("{}\t{}\t{{| c_exact := {}; c_focus := {}; c_fired := {}; c_runs := {}; c_rand := {} |}}", tag, line, b(spec.exact), focus, b(fired_), coq_list(&runs), coq_list(&rand))
 }
 
 fn main() {
